@@ -1,5 +1,5 @@
 """Shared object-level domain for C01-C04, C06, C13: valid corpus, corruption kinds, injection sites."""
-import copy, json
+import re, copy, json
 from vf import objgen as G, tables as T
 
 
@@ -85,6 +85,25 @@ def corruptions(d, ver, cat, tables):
         if k == 'HexProperty':
             for b in ('abc', 'zz', 'ab\n'):
                 c = copy.deepcopy(d); c[pn] = b; yield (f'{pn}: bad hex {b!r}', c)
+    if 'granular_markings' in props:
+        # selectors that are well-formed but address nothing: absent property, one step too deep (index / key step on a scalar, on a string in particular), index past the end
+        sels = []
+        for pn, v in d.items():
+            if pn == 'granular_markings': continue
+            if isinstance(v, str) and v: sels += [f'{pn}.[0]', f'{pn}.[{len(v) - 1}]', f'{pn}.key']
+            elif isinstance(v, (int, float)): sels += [f'{pn}.[0]']
+            elif isinstance(v, list) and v:
+                sels += [f'{pn}.[{len(v)}]', f'{pn}.length']
+                if isinstance(v[0], str) and v[0]: sels += [f'{pn}.[0].[0]']
+                if isinstance(v[0], dict):
+                    for k2, v2 in v[0].items():
+                        if isinstance(v2, str) and v2: sels += [f'{pn}.[0].{k2}.[0]']; break
+            elif isinstance(v, dict): sels += [f'{pn}.[0]']
+        sels += [pn for pn, pv in props.items() if pn not in d and pn != 'granular_markings' and not pv.get('has_default')][:3] + ['absent_property']
+        for sel in dict.fromkeys(sels):
+            if not re.match(r'^([a-z0-9_-]{3,250}(\.(\[[0-9]+\]|[a-z0-9_-]{1,250}))*|id)\Z', sel): continue
+            c = copy.deepcopy(d); c['granular_markings'] = [{'marking_ref': 'marking-definition--613f2e26-407d-48c7-9eca-b8e91df99dc9', 'selectors': [sel]}]
+            yield (f'granular_markings: selector addressing nothing {sel}', c)
     c = copy.deepcopy(d); c['x_unknown_property'] = 1; yield ('unknown property added', c)
     c = copy.deepcopy(d); c['foo'] = 'bar'; yield ('unknown property (no x_ prefix) added', c)
     # co-constraints
